@@ -400,13 +400,14 @@ type blobOp struct {
 }
 
 type blobWorld struct {
-	t    *testing.T
-	sim  *verifsim.Sim
-	tier string
-	c    *DiskCache
-	dir  string
-	tmp  string
-	ctl  *vfs.Control
+	coarse bool // the cache's clock ticks once a second
+	t      *testing.T
+	sim    *verifsim.Sim
+	tier   string
+	c      *DiskCache
+	dir    string
+	tmp    string
+	ctl    *vfs.Control
 
 	digests []*blobDigest
 	names   []*nameModel
@@ -457,6 +458,14 @@ func newBlobWorld(t *testing.T, sim *verifsim.Sim, tier string, crashAt, tornSel
 	c, err := Open(w.dir) // no Ctl installed yet: setting up is not part of the case
 	if err != nil {
 		panic(err)
+	}
+	// clock granularity is a property of the platform: in a third of the cases the cache's
+	// clock (its own seam, DiskCache.now) only ticks once a second, so that operations that
+	// name things after the time collide
+	w.coarse = verifsim.Active() && verifsim.Draw("coarse-clock", 3) == 0
+	if w.coarse {
+		c.now = coarseNow
+		verifsim.Probe("coarse_clock")
 	}
 	w.c = c
 	w.ctl = &vfs.Control{Roots: []string{base + string(filepath.Separator)}, CrashAt: crashAt, TornSel: tornSel, LogCap: 400}
@@ -1097,6 +1106,13 @@ func (w *blobWorld) doForeign(who string, op blobOp) {
 	if err != nil || d.n == 0 {
 		return // nobody writes an empty manifest
 	}
+	if m.active > 0 {
+		// An external writer racing a Link/Unlink of the same name is outside the statement
+		// (its histories are of cache operations): on a case-sensitive file system the two
+		// can create files for two spellings of the name, which no cache-side lock prevents.
+		verifsim.Probe("foreign_manifest_skipped_name_busy")
+		return
+	}
 	tk := m.beginMut(d.d.String())
 	tmp := filepath.Join(w.tmp, "foreign-manifest")
 	if err := os.MkdirAll(filepath.Dir(path), 0o777); err != nil {
@@ -1216,6 +1232,23 @@ func (w *blobWorld) doLinks(who string) {
 			listed = append(listed, n)
 		}
 		verifsim.Probe("links_listed")
+		// "a name is linked only to a manifest blob that exists": every listed name is one
+		// the workload linked (in some spelling), whatever happened - failed operations and
+		// crashes included
+		for _, l := range listed {
+			known := false
+			for _, m := range w.names {
+				for _, v := range m.variants {
+					if strings.EqualFold(l, v) {
+						known = true
+					}
+				}
+			}
+			if !known {
+				w.violate("links:phantom-name", "Links() lists %q, a name nobody ever linked (all listed: %v)\ncase: %s", l, listed, strings.Join(w.desc, "\n  "))
+				return
+			}
+		}
 		for _, m := range w.names {
 			if m.active > 0 || len(m.poss) != 1 {
 				continue
@@ -1325,12 +1358,17 @@ func (w *blobWorld) afterCrash() {
 	}
 }
 
+func coarseNow() time.Time { return time.Now().Truncate(time.Second) }
+
 func (w *blobWorld) recoverTask() {
 	c, err := Open(w.dir)
 	if err != nil {
 		w.violate("open:"+w.crashKind+":reopen-failed", "Open(%s) after the crash fails: %v", w.dir, err)
 		w.finished = true
 		return
+	}
+	if w.coarse {
+		c.now = coarseNow
 	}
 	w.c = c
 	verifsim.Probe("crash_reopened")
